@@ -518,6 +518,9 @@ func (s *Scope) evalCall(e ECall) Term {
 	// Go function compiled to a term
 	key := fpkg + "." + fname
 	if fi := x.P.Funcs[key]; fi != nil {
+		if fc := x.P.Contracts.Funcs[fi.Key]; fc != nil && fc.Flags["pure"] {
+			return x.pureUF(fi, Term{}, args())
+		}
 		tf := x.termFunOf(fi)
 		if tf == nil || !tf.ok {
 			unsupported("Go function %s cannot be used in a contract (not a pure loop-free function)", key)
@@ -551,6 +554,16 @@ func (s *Scope) evalCall(e ECall) Term {
 			}
 		}
 	}
+	if strings.HasPrefix(fname, "fv_") {
+		// function-valued parameter modelled as an uninterpreted predicate (same symbol as at its call sites)
+		as := args()
+		var sorts []Sort
+		for _, a := range as {
+			sorts = append(sorts, a.Sort)
+		}
+		w.DeclareFun(fname+"$0", sorts, SBool)
+		return T(app(fname+"$0", as...), SBool)
+	}
 	unsupported("unknown function %q in contract", key)
 	return Term{}
 }
@@ -568,6 +581,13 @@ func (s *Scope) evalMethodCall(f ESel, argsE []Expr) Term {
 	for _, star := range []string{"*", ""} {
 		key := pkgName + ".(" + star + named.Obj().Name() + ")." + f.Name
 		if fi := x.P.Funcs[key]; fi != nil {
+			if fc := x.P.Contracts.Funcs[fi.Key]; fc != nil && fc.Flags["pure"] {
+				var as []Term
+				for _, a := range argsE {
+					as = append(as, s.Eval(a))
+				}
+				return x.pureUF(fi, recv, as)
+			}
 			tf := x.termFunOf(fi)
 			if tf == nil || !tf.ok {
 				unsupported("method %s cannot be used in a contract", key)
@@ -630,4 +650,34 @@ func (x *Exec) defineSpec(sf *SpecFunc) string {
 	body := x.coerce(sc.Eval(sf.Body), ret.sort)
 	x.W.Define(name, fmt.Sprintf("(define-fun %s (%s) %s %s)", name, strings.Join(formals, " "), ret.sort, body.S))
 	return name
+}
+
+// pureUF: application of the uninterpreted function that stands for a Go function whose contract is flagged pure
+// (the same symbol call-by-contract uses for its result).
+func (x *Exec) pureUF(fi *FuncInfo, recv Term, args []Term) Term {
+	sig := fi.Obj.Type().(*types.Signature)
+	rt := sig.Results().At(0).Type()
+	fname := fmt.Sprintf("uf_%s$0", sanitize(fi.Key))
+	var as []Term
+	var sorts []Sort
+	if sig.Recv() != nil {
+		as = append(as, recv)
+		sorts = append(sorts, x.W.SortOf(sig.Recv().Type()))
+	}
+	for i, a := range args {
+		if i < sig.Params().Len() {
+			a = x.coerce(a, x.W.SortOf(sig.Params().At(i).Type()))
+			sorts = append(sorts, x.W.SortOf(sig.Params().At(i).Type()))
+		} else {
+			sorts = append(sorts, a.Sort)
+		}
+		as = append(as, a)
+	}
+	x.W.DeclareFun(fname, sorts, x.W.SortOf(rt))
+	r := T(app(fname, as...), x.W.SortOf(rt))
+	if len(as) == 0 {
+		r.S = fname
+	}
+	r.GoT = rt
+	return r
 }
